@@ -2,6 +2,7 @@ import GenlmModel.Proofs.GenLink.Fst
 import Batteries.Tactic.Alias
 import GenlmModel.Proofs.Fst
 import GenlmModel.Proofs.LimFst
+import GenlmModel.Proofs.PrunedCompose
 /-! # C10 — transducer composition counts every matching path pair exactly once
 About the mirror models of `fst.py` (`FST.compose` / `compose'` = the two association branches of
 `__matmul__` through `_augment_epsilon_transitions` and `epsilon_filter_fst`), every commutative semiring. -/
@@ -63,4 +64,17 @@ alias call_any_association := Genlm.evalL_branches
 alias cross_section_x := Genlm.crossX_PL
 alias cross_section_y := Genlm.crossY_PL
 alias total_weight_is_start_backward := Genlm.FST.totalL_eq_totalWeight
+
+/-! ## `_pruned_compose` (the on-the-fly product the code actually builds: only pairs accessible from the initial pairs) -/
+/-- terminates within |Q1|·|Q2| pops, for every worklist discipline … -/
+alias pruned_compose_terminates := Genlm.prunedCompose_terminates
+/-- … builds exactly the arcs of the full product that leave accessible pairs … -/
+alias pruned_compose_is_accessible_part := Genlm.prunedCompose_done
+/-- … and has the same weights as the full product the composition theorems are about -/
+alias pruned_compose_same_weights := Genlm.prunedCompose_TPk
+/-- `T1 @ T2` as the code runs it (augment, filter, two on-the-fly products) = the verified composition, both branches;
+the `assert b != EPSILON` can never fire there -/
+alias matmul_as_run_same_weights := Genlm.composePruned_TPk
+alias matmul_as_run_other_branch := Genlm.composePruned'_TPk
+alias matmul_assertion_never_fires := Genlm.composePruned_ne_assert
 end Genlm.Props.C10
